@@ -152,6 +152,10 @@ class Array:
 
     def _set_dtype(self, new_dtype: Union[str, Dtype]) -> None:
         if isinstance(new_dtype, Dtype):
+            if new_dtype.length is None:
+                raise ValueError(f"A fixed length format is needed for an Array, received '{new_dtype}'.")
+            if new_dtype.length == 0:
+                raise ValueError(f"A non-zero length format is needed for an Array, received '{new_dtype}'.")
             self._dtype = new_dtype
         else:
             try:
